@@ -174,6 +174,7 @@ def batch(ctx, n):
     for double in (True, False):
         run_one(ctx, *build_lead_in_match(ctx.rng, double))
         run_one(ctx, *build_unordered_pairs(ctx.rng, double))
+        run_one(ctx, fibre.splice_at_last_reference_case(ctx.rng, double, noise=0.0), {}, "free:splice-at-last-reference", True)
     while done < n and tries < 20 * n:
         tries += 1
         b = build(ctx.rng, ctx.quick)
